@@ -16,13 +16,23 @@ def run(name):
     d = os.path.join(V, "seeded", name)
     meta = json.load(open(os.path.join(d, "meta.json")))
     pid = meta.get("property") or name.split("-")[0]
+    pids = [pid] + [x for x in meta.get("also_checks", []) if x != pid]
     try:
-        p = subprocess.run([os.path.join(V, "tools", "seedtest.sh"), os.path.join(d, "patch.diff"), pid],
+        p = subprocess.run([os.path.join(V, "tools", "seedtest.sh"), os.path.join(d, "patch.diff")] + pids,
                            stdout=subprocess.PIPE, stderr=subprocess.STDOUT, text=True, timeout=3600)
         out = p.stdout
     except subprocess.TimeoutExpired:
         out = "timeout"
     m = re.search(r"done: (.*)", out)
+    also = ""
+    if len(pids) > 1:
+        # verdict of the property's own check first; other checks reported in the stats column
+        own = "\n".join(l for l in out.split("\n") if l.startswith("[%s " % pid))
+        for x in pids[1:]:
+            ox = "\n".join(l for l in out.split("\n") if l.startswith("[%s " % x))
+            also += " ; %s: %s" % (x, "VIOLATION with failing input" if ("VIOLATION" in ox and "no-failing" not in ox) else ("VIOLATION no-failing-input-found" if "VIOLATION" in ox else "passed"))
+        out = own
+        m = re.search(r"done: (.*)", out)
     if "no-failing-input-found" in out:
         verdict = "VIOLATION no-failing-input-found (proof obligation / correspondence broke)"
     elif "VIOLATION" in out:
@@ -32,7 +42,7 @@ def run(name):
     else:
         verdict = "check did not run: " + out[-300:]
     res = {"check": pid, "cmd": "tools/seedtest.sh seeded/%s/patch.diff %s" % (name, pid), "result": verdict,
-           "stats": m.group(1) if m else ""}
+           "stats": (m.group(1) if m else "") + also}
     meta["checks_run"] = [r for r in meta.get("checks_run", []) if r.get("check") != pid or "cmd" not in r] + [res]
     # keep only the latest automated entry per check
     seen = {}
